@@ -312,11 +312,15 @@ def strip_const(args):
 
 def kani_part(ctx):
     import kanirun
-    fn = ['CoreDID::valid_method_id', 'CoreDID::valid_method_name', 'did_url::is_valid_url_segment', 'did_url::is_valid_percent_encoded_char']
-    names = ['c10_method_name_3', 'c10_method_id_3', 'c10_twin_must_fail']
+    fn = ['CoreDID::valid_method_id', 'CoreDID::valid_method_name', 'did::is_char_method_id', 'did::is_char_method_name']
+    names = ['c10_method_id_0', 'c10_method_id_1', 'c10_method_id_2', 'c10_method_id_3', 'c10_method_name_0', 'c10_method_name_3',
+             'c10_method_id_colon_1', 'c10_method_id_colon_2', 'c10_method_id_colon_3', 'c10_twin_must_fail']
+    if ctx.tier == 'quick':
+        names = ['c10_method_id_0', 'c10_method_id_2', 'c10_method_name_0', 'c10_method_id_colon_1', 'c10_twin_must_fail']
     specs = [dict(harness=h, timeout_s=1800, functions=fn, must_fail=h.endswith('must_fail'),
-                  finding_key='valid_method_id-accepts-malformed-pct' if h == 'c10_method_id_3' else None,
-                  bounds='3 symbolic ASCII bytes') for h in names]
+                  finding_key='method-id-trailing-colon' if '_colon_' in h else None,
+                  bounds='every ASCII string of the length in the harness name (0..3) against the W3C ABNF; ids that are well formed '
+                         'except for a trailing ":" are the region of the recorded finding and are decided by the *_colon_* harnesses') for h in names]
     res = kanirun.run_many(specs)
     kanirun.judge(ctx, specs, res, 'c10')
 
@@ -328,5 +332,5 @@ def main(ctx):
                     'non-ASCII input beyond the character-class kernels']
     guarded(ctx, 'character classes', 'M', lambda: kernels(ctx, prog))
     guarded(ctx, 'constructor / setter audit', 'M', lambda: audits(ctx, prog))
-    if ctx.tier == 'thorough' and os.environ.get('VERIF_SKIP_K') != '1':
+    if os.environ.get('VERIF_SKIP_K') != '1':
         guarded(ctx, 'local validators', 'K', lambda: kani_part(ctx))
